@@ -23,7 +23,7 @@ import sys
 import typing as T
 from concurrent.futures import ProcessPoolExecutor
 
-from . import common, lang_driver as ld
+from . import common, lang_driver as ld, lang_lexer, lang_gen
 from .common import Check, MachineryError, SPECS, run_tlc, scratch
 
 PROP = 'C02'
@@ -145,6 +145,8 @@ def _worker_corpus(args: T.Tuple[T.List[str], int, int, bool]) -> T.Dict[str, T.
             for m in range(nmut):
                 rnd = random.Random(hash((sd, rel, m)) & 0xffffffff)
                 mt = mutate_tokens(toks, rnd, pool)
+                if m % 2 == 0:
+                    mt = lang_gen.decorate_nested([t for t in mt if t['t'] != 'eol' or rnd.random() < 0.9], rnd, rate=0.1, anywhere=0.1)
                 cases.append(_case_from_tokens(f'mut{m}:{rel}', mt, [alpha.add(t) for t in mt], rnd, mods, want_ast))
     return {'alphabet': alpha.items, 'cases': cases}
 
@@ -155,7 +157,8 @@ def _worker_soup(args: T.Tuple[int, int, int, bool]) -> T.Dict[str, T.Any]:
     alpha = ld.Alphabet()
     pool = [ld.tok(t) for t in ld.SYMTEXT] + [ld.tok(t) for t in sorted(ld.KEYWORDS)] + \
            [ld.tok('id', s=s, cs=[ord(c) for c in s]) for s in ('a', 'b', 'f', 'x_1')] + [ld.tok('number', n=n) for n in (0, 1, 7, 42)] + \
-           [ld.tok('string', s=fl, cs=cs) for fl in ('s', 'ms', 'fs', 'mfs') for cs in ([], [97], [97, 32, 98], [64, 48, 64])]
+           [ld.tok('string', s=fl, cs=cs) for fl in ('s', 'ms', 'fs', 'mfs') for cs in ([], [97], [97, 32, 98], [64, 48, 64])] + \
+           [ld.tok('string', s='s', cs=[97, 10, 98]), ld.tok('string', s='fs', cs=[10]), ld.tok('string', s='ms', cs=[97, 10, 10, 98])]
     # weights: make well-formed fragments likely
     cases = []
     for j in range(lo, hi):
@@ -173,6 +176,8 @@ def _worker_soup(args: T.Tuple[int, int, int, bool]) -> T.Dict[str, T.Any]:
                 toks += [ld.tok('if'), rnd.choice(pool), ld.tok('eol'), rnd.choice(pool), ld.tok('eol'), ld.tok('endif'), ld.tok('eol')]
             else:
                 toks.append(rnd.choice(pool))
+        if j % 2:
+            toks = lang_gen.decorate_nested(toks, rnd, rate=0.2, anywhere=0.15)
         cases.append(_case_from_tokens(f'soup:{j}', toks, [alpha.add(t) for t in toks], rnd, mods, want_ast))
     return {'alphabet': alpha.items, 'cases': cases}
 
@@ -295,7 +300,8 @@ def main(chk: Check) -> None:
     nmut = 1 if quick else 6
     nsoup = 3000 if quick else 60000
     nchars = 20000 if quick else 600000
-    chk.rule = ('A: every token sequence up to N over four alphabets exported by the TLC model (full 35 tokens, expression '
+    chk.rule = ('L: every string up to N characters over the 16-character alphabet of the lexer model and random fragment soups '
+                'through the real Lexer, judged by TraceLexer; A: every token sequence up to N over four alphabets exported by the TLC model (full 35 tokens, expression '
                 'core, block structure, calls/containers), rendered with seeded trivia; B: all build files of the repository, '
                 'token-level mutants of them and token soups (tokens from the real Lexer); character soups for totality. '
                 'Non-trivial = accepted input containing at least one call or array literal whose extent is compared '
@@ -304,6 +310,7 @@ def main(chk: Check) -> None:
     chk.extra['model_bounds'] = mc_bounds
     chk.extra['impl_exhaustive_bounds'] = impl_bounds
     with ProcessPoolExecutor(max_workers=common.NCPU) as ex:
+        lang_lexer.run_lexer_level(chk, ex, 4 if quick else 5, 4 if quick else 5, 20000 if quick else 400000)
         run_enumeration(chk, ex, alphabets, impl_bounds, MODE, want_ast=False)
         run_corpus_and_soups(chk, ex, nmut, nsoup, MODE, want_ast=False)
         step = max(1, nchars // (common.NCPU * 2))
